@@ -12,7 +12,7 @@ package server
 //
 // input : <id> S <gate 0|1> <client chunk sizes a,b,..|-> <client closes 0|1> <proxy chunk sizes|-> <proxy eof 0|1>
 //         (byte i of client chunk k = (k*53 + i*7 + 1) mod 256; of proxy chunk k = (k*91 + i*5 + 3) mod 256)
-// output: <id> got=<len>:<ok|BAD:first difference> closed=<0|1> down=<len>:<ok|BAD..> cliEnd=<0|1> wedged=<0|1>
+// output: <id> got=<len>:<ok|BAD:first difference> closed=<0|1> down=<len>:<ok|BAD..> cliEnd=<0|1> wedged=<0|1> cwfail=<a client Write failed 0|1>
 //   got    what the proxy connection was handed, compared with the concatenation of the client's chunks
 //   closed the relay closed the proxy connection
 //   down   what the client read from the stream, compared with the proxy's chunks
@@ -200,11 +200,14 @@ func rlSrvCase(f []string) string {
 		return "open-failed"
 	}
 	var cwant []byte
+	cwfail := false
 	for k, n := range csizes {
 		ch := rlSrvChunk(k, n, 53, 7, 1)
 		cwant = append(cwant, ch...)
 		if _, err := st.Write(ch); err != nil {
-			return "client-write-failed:" + err.Error()
+			// legitimate when the proxy side has ended meanwhile (the relay has closed the stream); judged by the oracle
+			cwfail = true
+			break
 		}
 	}
 	// what the client reads from the stream
@@ -280,7 +283,7 @@ func rlSrvCase(f []string) string {
 		}
 		return "0"
 	}
-	return fmt.Sprintf("got=%s closed=%s down=%s cliEnd=%s wedged=%s", rlSrvCmp(got, cwant), b(closed), rlSrvCmp(dn, pwant), b(ended), b(wedged))
+	return fmt.Sprintf("got=%s closed=%s down=%s cliEnd=%s wedged=%s cwfail=%s", rlSrvCmp(got, cwant), b(closed), rlSrvCmp(dn, pwant), b(ended), b(wedged), b(cwfail))
 }
 
 func rlSrvIO(t *testing.T) (*bufio.Scanner, *bufio.Writer, func()) {
